@@ -34,8 +34,20 @@ def node_kernels(ctx):
             names |= set(ctx.prog.classes[c].methods)
         for m in sorted(names - NODE_METHOD_SKIP):
             f = ctx.prog.resolve_method(cls, m)
+            if _construction_only(ctx, f, 0):
+                continue          # a helper of the constructor (validation of the description): not a kernel of the solver
             out.append((role, cls, m, f))
     return out
+
+
+def _construction_only(ctx, f, depth):
+    """every call of f comes from a constructor / the validation method (or from such a helper)"""
+    if depth > 2 or f is None or not f.name.startswith("_") or f.name.startswith("__"):
+        return False
+    sites = ctx.cg.callers_of(f)
+    if not sites:
+        return False
+    return all(g.name in ("__init__", "check_next_states", "check_game") or _construction_only(ctx, g, depth + 1) for g, _ in sites)
 
 
 def r2_consumers(ctx, chk, rule="C13.2"):
